@@ -256,3 +256,36 @@ Section ModelCompose.
     now rewrite (text_of_core sl _ _ H1), (text_of_core sl _ _ H2).
   Qed.
 End ModelCompose.
+
+(** * The documented rules, read off the specification *)
+Theorem render_rules (o : opts) (sl : sls) :
+  (* text is copied; whitespace-only text is dropped unless strict between-latex-constructs *)
+  (forall c, is_blank c = false -> render1 o sl (KText c) = c)
+  /\ (forall c, is_blank c = true -> render1 o sl (KText c) = if s_blc sl then c else [])
+  (* comments vanish, leaving their post-space unless strict after-comment *)
+  /\ (forall c p, o_keep_comments o = false -> render1 o sl (KComment c p) = if s_ac sl then [] else p)
+  (* groups and formatting macros are transparent *)
+  /\ (forall b, o_kbg o = false -> render1 o sl (KGroup b) = render o sl b)
+  /\ (forall b, render1 o sl (KTransparent b) = render o sl b)
+  /\ (forall b, render1 o sl (KEnvBody b) = render o sl b)
+  (* symbols and specials become their replacement *)
+  /\ (forall r p, render1 o sl (KSymbol r p) = r) /\ (forall r, render1 o sl (KSpecials r) = r)
+  (* inline math is inlined, display math is an indented block, under the in-equations policy *)
+  /\ (forall dl dr v b, o_math o = MMText ->
+        render1 o sl (KMath false dl dr v b) = py_strip (render o (push_eq sl) b)
+        /\ render1 o sl (KMath true dl dr v b) = indent_block (py_strip (render o (push_eq sl) b)))
+  (* the post-space of a bare symbol macro goes in front of following text unless strict between-macro-and-chars *)
+  /\ (forall r p c k, render o sl [KSymbol r p; KText c]
+                      = r ++ (if s_bmc sl then [] else p) ++ render1 o sl (KText c)
+                      /\ (is_text k = false -> render o sl [KSymbol r p; k] = r ++ render1 o sl k)).
+Proof.
+  repeat split; intros.
+  - cbn [render1]. now rewrite H, andb_false_r.
+  - cbn [render1]. rewrite H, andb_true_r. now destruct (s_blc sl).
+  - cbn [render1]. now rewrite H.
+  - rewrite render1_group, H. reflexivity.
+  - rewrite render1_math, H. reflexivity.
+  - rewrite render1_math, H. reflexivity.
+  - unfold render. cbn [render_from glue render1]. rewrite app_nil_r. reflexivity.
+  - unfold render. cbn [render_from]. rewrite !glue_eq, H. cbn [bare_post andb render1 app]. now rewrite app_nil_r.
+Qed.
